@@ -100,7 +100,8 @@ ASSUMPTIONS = [
     'gradient for gamma <= 1/L',
     'liveness only in bounded calibrated form; budgets are iteration '
     'counts; a time-out is a harness matter',
-    'kaczmarz with random=False, power_method_opnorm with explicit xstart',
+    'kaczmarz(random=True) with np.random re-seeded from the descriptor '
+    'before each run; power_method_opnorm with explicit xstart',
     'BacktrackingLineSearch raising at a point whose reference gradient is '
     'below rounding level is termination at the optimum (documented)',
 ]
@@ -469,6 +470,14 @@ def _lin_case_st(draw, clause):
                         for _ in range(nops)],
                  omega_list=draw(st.booleans()),
                  niter=draw(st.sampled_from([3, 8, 20])))
+        # blocks of very different norms with their own relaxation
+        # parameters, visited in random order (np.random is re-seeded from
+        # the descriptor before each run)
+        c['scales'] = [draw(st.sampled_from([1.0, 0.5, 3.0, 12.0]))
+                       for _ in range(nops)]
+        c['random'] = draw(st.booleans())
+        if c['random'] or draw(st.booleans()):
+            c['omega_list'] = True
     elif clause == 'steepest':
         sd = draw(_domain_st(kinds=('tensor', 'tensor', 'discr')))
         A = draw(_op_st(sd, conds=[1.0, 3.0, 10.0, 100.0])) \
@@ -707,7 +716,11 @@ def _residual_clause(c, strata, clause):
 def _kaczmarz(c, strata):
     X = pb.build.build_space(c['domain'])
     dX = pb.gram_diag(X)
-    lins = [pb.LinOp(pb.build_operator(o, X), dX) for o in c['ops']]
+    scales = [float(v) for v in c.get('scales', [1.0] * len(c['ops']))]
+    lins = []
+    for o, sc in zip(c['ops'], scales):
+        op = pb.build_operator(o, X)
+        lins.append(pb.LinOp(op if sc == 1.0 else sc * op, dX))
     ex = _exact_or_excluded(lins, strata)
     if ex is not None:
         return ex
@@ -716,20 +729,30 @@ def _kaczmarz(c, strata):
     xt = np.round(rng.standard_normal(n), 3)
     rhs = [unflat(l.M @ xt, l.op.range) for l in lins]
     x0 = xt + np.round(rng.standard_normal(n) * float(c['x0scale']), 3)
+    # omega_i = c_i / ||A_i||^2 with c_i = 2 frac_i in (0, 1.9]: every
+    # partial step is non-expansive w.r.t. every solution, whatever the
+    # order in which the blocks are visited
     om = [fr * 2 / max(l.norm, 1e-9) ** 2 for fr, l in zip(c['fracs'], lins)]
     omega = om if c['omega_list'] else min(om)
+    rand = bool(c.get('random'))
     for loop in ('inner', 'outer'):
         x = unflat(x0, X)
         seq = []
+        np.random.seed(int(c['seed']) % (2 ** 32))
         S.kaczmarz([l.op for l in lins], x, rhs, int(c['niter']),
-                   omega=omega, random=False, callback_loop=loop,
+                   omega=omega, random=rand, callback_loop=loop,
                    callback=lambda v: seq.append(toflat(v, X)))
         dist = [wnorm(v - xt, dX) for v in [x0] + seq]
         _mono(dist, max(dist[0], 1e-300),
               'C12|kaczmarz-distance|kaczmarz|' + _dom_kind(c['domain']),
               'distance to a solution ({} loop)'.format(loop))
-    strata += ['kaczmarz', 'nops:{}'.format(len(lins))] + \
-        ['op:' + o['kind'] for o in c['ops']]
+    nr = [l.norm for l in lins if l.norm > 0]
+    strata += ['kaczmarz', 'nops:{}'.format(len(lins)),
+               'kaczmarz:random' if rand else 'kaczmarz:fixed-order',
+               'kaczmarz:omega-' + ('list' if c['omega_list'] else 'float')
+               ] + ['op:' + o['kind'] for o in c['ops']]
+    if len(nr) >= 2 and max(nr) >= 5 * min(nr) and c['omega_list']:
+        strata.append('kaczmarz:norms-differ-5x')
     return Outcome('ok', strata=strata,
                    nontrivial=dist[0] > 0 and dist[-1] < dist[0])
 
@@ -1374,7 +1397,8 @@ def run_case(desc):
 REQUIRED_STRATA = (
     ['fixed:' + s for s in NS_SOLVERS] + ['fixed-dual:dr'] +
     ['progress:' + s for s in NS_SOLVERS] +
-    ['cg', 'cgn', 'landweber', 'kaczmarz', 'steepest', 'power',
+    ['cg', 'cgn', 'landweber', 'kaczmarz', 'kaczmarz:random',
+     'kaczmarz:norms-differ-5x', 'steepest', 'power',
      'stepsize:pdhg', 'stepsize:dr', 'given:none', 'given:tau',
      'given:sigma', 'given:both', 'power:selfadjoint', 'power:normal',
      'family:strong', 'family:eqcon', 'family:kl',
